@@ -171,7 +171,7 @@ func (state *IntraAnalysisState) makeEdgesAtCallSite(callInstr ssa.CallInstructi
 		for _, mark := range state.getMarks(callInstr, callInstr.Common().Value, "", true) {
 			state.summary.addCallEdge(mark, nil, callInstr)
 			if closure, isMakeClosure := mark.Mark.Node.(*ssa.MakeClosure); isMakeClosure {
-				state.updateBoundVarEdges(callInstr, closure)
+				state.updateBoundVarEdgesAtCall(callInstr, closure)
 			}
 		}
 	}
@@ -185,7 +185,7 @@ func (state *IntraAnalysisState) makeEdgesAtCallSite(callInstr ssa.CallInstructi
 			tmpSrc := state.flowInfo.GetNewMark(callInstr.(ssa.Node), Global, argInstr, NonIndexMark)
 			state.summary.addCallArgEdge(MarkWithAccessPath{tmpSrc, ""}, nil, callInstr, argInstr)
 		case *ssa.MakeClosure:
-			state.updateBoundVarEdges(callInstr, argInstr)
+			state.updateBoundVarEdgesAtCall(callInstr, argInstr)
 		}
 		marks := state.getMarks(callInstr, arg, "", false)
 		for _, mark := range marks {
@@ -221,6 +221,22 @@ func (state *IntraAnalysisState) updateBoundVarEdges(instr ssa.Instruction, x *s
 	for _, boundVar := range x.Bindings {
 		for _, boundVarMark := range state.getMarks(instr, boundVar, "", false) {
 			state.summary.addBoundVarEdge(boundVarMark, &ConditionInfo{Satisfiable: true}, x, boundVar)
+		}
+	}
+}
+
+// updateBoundVarEdgesAtCall updates the edges to the bound variables of a closure that is called, or passed as
+// argument, at callInstr. A deferred call is executed when the function returns: the closure observes its bound
+// variables as they are at the RunDefers instructions, not at the defer statement.
+func (state *IntraAnalysisState) updateBoundVarEdgesAtCall(callInstr ssa.CallInstruction, x *ssa.MakeClosure) {
+	state.updateBoundVarEdges(callInstr, x)
+	if _, isDefer := callInstr.(*ssa.Defer); isDefer {
+		for _, block := range callInstr.Parent().Blocks {
+			for _, instr := range block.Instrs {
+				if runDefers, isRunDefers := instr.(*ssa.RunDefers); isRunDefers {
+					state.updateBoundVarEdges(runDefers, x)
+				}
+			}
 		}
 	}
 }
